@@ -35,11 +35,44 @@ def nodir_lemmas(chk):
             lang.decide(chk, ob, obj, want, want, R.Spec(D.dom_nonempty(m), m.maxc), sig, is_bytes=is_bytes)
 
 
+SEP_RUNS = [('a//b', 'a/b'), ('a///b', 'a/b'), ('a////b', 'a/b'), ('*//*', '*/*'), ('**//b', '**/b'), ('a//**//c', 'a/**/c'), ('a//', 'a/'), ('a/b//', 'a/b/'),
+            ('?//[ab]///c', '?/[ab]/c'), ('a//@(b|c)', 'a/@(b|c)'), ('a\\///b', 'a/b')]
+
+
+def separator_run_lemmas(chk):
+    """C02: runs of separators in the pattern count as one - the regex of a pattern with a run denotes the language of the pattern with
+    single separators, under the Unix and under the Windows rules (decided exactly, all paths)."""
+    from wcmatch import _wcparse as W
+    agg = dict(proved=0, refuted=0)
+    for run, single in SEP_RUNS:
+        for fl, nm in ((G.G | G.U, 'unix'), (G.G | G.E | G.D | G.U, 'unix|E|D'), (G.G | G.W, 'win'), (G.G | G.E | G.W | G.C, 'win|E|C')):
+            for is_bytes in (False, True):
+                p1, p2 = (run.encode(), single.encode()) if is_bytes else (run, single)
+                try:
+                    a = W.compile_pattern(p1, G._flag_transform(fl))[0][0]
+                    b = W.compile_pattern(p2, G._flag_transform(fl))[0][0]
+                    r = R.equal(R.Impl(a), R.Impl(b))
+                except (R.Unsupported, R.StateLimit) as e:
+                    chk.leave_open('C02.lang.separator_runs_count_as_one', str(e))
+                    continue
+                if r is None:
+                    agg['proved'] += 1
+                    chk.case(key=('seprun', run, nm, is_bytes))
+                else:
+                    agg['refuted'] += 1
+                    w = R.to_str(r[0], is_bytes)
+                    chk.violation(dict(obligation='C02.lang.separator_runs_count_as_one', pattern=run, flags=fl, fl=nm, witness=w, mode='seprun', bytes=is_bytes),
+                                  f'C02.lang.separator_runs_count_as_one: {run!r} and {single!r} differ on {w!r} under {nm}',
+                                  f"import sys; sys.path.insert(0, {LC.REPO!r})\nfrom wcmatch import glob\nprint(glob.globmatch({w!r}, {p1!r}, flags={fl}), glob.globmatch({w!r}, {p2!r}, flags={fl}))\nsys.exit(1)\n")
+    chk.obligation('C02:C02.lang.separator_runs_count_as_one', 'refuted' if agg['refuted'] else 'proved', 'relang', 0.0, detail=f"{agg['proved']} proved, {agg['refuted']} refuted")
+
+
 def main(tier, seed):
     chk = Check('C02', tier, seed, level='other', technique='contracts + exact regular-language decision per pattern')
     from vlib import glue
     glue.run(chk, 'C02')
     nodir_lemmas(chk)
+    separator_run_lemmas(chk)
     pats = patsets.path_patterns(tier)
     fsets = ['G', 'G|D', 'G|E', 'E', 'GL|E', 'X|G|E', 'O|G|E', 'X|E'] if tier == 'quick' else list(FLAGSETS)
     items = []
